@@ -353,7 +353,18 @@ class C02(Family):
     prop = "C02"
     extra_modules = ["CtrlVerif.Props.C02Tree",      # tree theorem (structural induction)
                      "CtrlVerif.Props.C02Glue",      # run-time layer = typed layer, per operator
-                     "CtrlVerif.Props.C02GlueTree"]  # run-time tree theorem, driver dispatch
+                     "CtrlVerif.Props.C02GlueTree",  # run-time tree theorem, driver dispatch
+                     # source-text tie (notes/NOTES-py2lean-ss.md): Generated/SS*.lean are rewritten from
+                     # control/statesp.py of the tree under check and proved equal to the run-time model
+                     "CtrlVerif.Props.C02GenBasic", "CtrlVerif.Props.C02GenMul", "CtrlVerif.Props.C02GenAdd",
+                     "CtrlVerif.Props.C02GenFeedback", "CtrlVerif.Props.C02GenPow", "CtrlVerif.Props.C02GenLft",
+                     "CtrlVerif.Props.C02Gen"]
+
+    def pre_build(self):
+        import os
+        from core import py2lean_ss, leanproj
+        problems, self.gen_info = py2lean_ss.regenerate(os.environ.get("VERIF_REPO") or "/repo", leanproj.LEAN)
+        return problems
     externals = ["numpy.linalg.solve / scipy.linalg.inv / matrix_rank (the model uses det != 0 and "
                  "the certified inverse det^-1 * adjugate)",
                  "numpy.linalg.svd in the harness (conditioning guard of the rank tests: an error is "
